@@ -11,14 +11,32 @@ open PatchModel
 /-! ### locator -/
 
 theorem candidates_length (s m size : Nat) :
-    (candidates s m size).length = (size - s) + (s - m) := by
+    (candidates s m size).length = (size + 1 - s) + (s - m) := by
   simp [candidates]
 
+/-- (D109: the end of the file is a position too, so a file of `size` lines has up to `size + 1` of them) -/
 theorem candidates_length_le (guess : Int) (minLine size : Nat) :
-    (candidates (searchStart guess minLine size) minLine size).length ≤ size := by
+    (candidates (searchStart guess minLine size) minLine size).length ≤ size + 1 := by
   rw [candidates_length]
   unfold searchStart
   omega
+
+/-- the probes made before the one that succeeds are fewer than the candidates -/
+theorem takeWhile_not_lt_of_find? {α} (P : α → Bool) : ∀ (l : List α) (a : α), l.find? P = some a →
+    (l.takeWhile (fun q => !P q)).length < l.length := by
+  intro l
+  induction l with
+  | nil => intro a h; simp at h
+  | cons x l ih =>
+    intro a h
+    rw [List.find?_cons] at h
+    cases hx : P x with
+    | true => simp [hx]
+    | false =>
+      rw [hx] at h
+      have := ih a h
+      simp only [List.takeWhile_cons, hx, Bool.not_false, if_true, List.length_cons]
+      omega
 
 theorem length_takeWhile_le {α} (p : α → Bool) (l : List α) : (l.takeWhile p).length ≤ l.length := by
   induction l with
